@@ -151,3 +151,22 @@ Section Window.
     match x with Some v => cw_append c (enc_cell v) | None => cw_append_nostart c backfill_rec end.
   Definition cw_run_nostart (xs : list (option wcell)) : colwip := fold_left cw_step_nostart xs cw_empty.
 End Window.
+
+(* ---------- the per-segment "has results" flag of a persistent query ----------
+   segstore.go AppendWipToSegfile: after every block  pqNonEmptyResults[pqid] = pqNonEmptyResults[pqid] || pqResults.Any();
+   at rotation a false flag deletes the segment's pqmr file and puts the segment on the empty-results list of the
+   query (written by the background listener); applyFopAllRequests then skips the segment for that query, otherwise the
+   stored per-block bitsets (= the ingest-time matches) are the segment's answer. *)
+Section PqsFlag.
+  Variable event : Type.
+  Variable m : event -> bool.                 (* the ingest-time match of the persistent query *)
+
+  Definition block_any (b : list event) : bool := existsb m b.
+  Definition seg_nonempty (blocks : list (list event)) : bool :=
+    fold_left (fun f b => f || block_any b) blocks false.
+  (* the flag taken from the current block alone (what an assignment without the OR computes) *)
+  Definition seg_nonempty_last (blocks : list (list event)) : bool :=
+    fold_left (fun _ b => block_any b) blocks false.
+  Definition pqs_seg_answer (flag : bool) (blocks : list (list event)) : list event :=
+    if flag then flat_map (filter m) blocks else [].
+End PqsFlag.
